@@ -42,6 +42,7 @@ def main():
         wt = tempfile.mkdtemp(prefix=f"keep-{area}{letter}-")
         ev = tempfile.mkdtemp(prefix=f"keep-ev-{area}{letter}-")
         res = {"id": f"{area}-{letter}", "checks": {}}
+        todo = list(dict.fromkeys(AREAS[area] + (os.environ.get("KEEP_ALSO", "").split(",") if os.environ.get("KEEP_ALSO") else [])))
         try:
             sh(["git", "-C", REPO, "worktree", "add", "-q", "--detach", wt, "HEAD"], check=True)
             ap = sh(["git", "-C", wt, "apply", patch])
@@ -50,7 +51,7 @@ def main():
                 continue
             t = sh(["/venv/bin/python", "-m", "pytest", "-q", "-p", "no:cacheprovider", "--timeout=900", "--continue-on-collection-errors"], cwd=wt)
             res["tests"] = (t.stdout.strip().splitlines() or ["?"])[-1]
-            for p in AREAS[area]:
+            for p in todo:
                 env = dict(os.environ, VERIF_REPO=wt, VERIF_EVIDENCE_DIR=ev)
                 c = sh([os.path.join(VERIF, "check"), p, "--tier", "quick"], cwd=VERIF, env=env)
                 sigs = re.findall(r"signature: (\{.*\})", c.stdout)
